@@ -38,16 +38,36 @@ DOCUMENTED_ESCAPES = {
 }
 
 
+_CEDULA_SNAPSHOT = []
+
+
+def _cedula_snapshot():
+    """The documented whitelist of do.cedula as it stood when the properties were written (578 numbers): numbers a
+    later tree adds to the module's list are not exempt."""
+    if not _CEDULA_SNAPSHOT:
+        import os
+        with open(os.path.join(os.path.dirname(os.path.abspath(__file__)), 'data', 'do_cedula_whitelist.txt')) as f:
+            _CEDULA_SNAPSHOT.extend(x.strip() for x in f if x.strip())
+    return set(_CEDULA_SNAPSHOT)
+
+
 def escapes(name, v, t):
-    """True if neighbour t of valid v is valid under the *other* rule the module documents."""
+    """True if neighbour t of valid v is valid under the *other* rule the module documents (the rule is evaluated
+    here, independently of the module)."""
     if name == 'fr.siret':
-        return t.startswith('356000000') or v.startswith('356000000')
+        # documented: establishments of La Poste (SIREN 356000000, except the head office 35600000000048) are
+        # checked with "digit sum is a multiple of 5" instead of Luhn
+        def la_poste(x):
+            return x.startswith('356000000') and x != '35600000000048'
+        if la_poste(t):
+            return t.isdigit() and sum(int(c) for c in t) % 5 == 0
+        return la_poste(v)      # v under the digit-sum rule, t (the head office) under Luhn
     if name == 'id.npwp':
         # 16-digit numbers not starting with 0 are NIK numbers, validated by a different module
         return len(t) == 16 and (t[0] != '0') != (v[0] != '0')
     if name == 'do.cedula':
-        from stdnum.do import cedula
-        return t in cedula.whitelist or v in cedula.whitelist
+        snap = _cedula_snapshot()
+        return t in snap or v in snap
     if name == 'nl.btw':
         from stdnum.nl import bsn
         from stdnum.iso7064 import mod_97_10
@@ -240,7 +260,20 @@ def work(shard, tier):
         listed = name in LISTED
         base = C.corpus(name, limit=8 if tier == 'quick' else 400, rng=rng)
         nums = []
-        for v in base + C.synth_valid(name, 6 if tier == 'quick' else 400, rng, base=base):
+        special = C.synth_constant_prefixes(name, rng, cap=40 if tier == 'quick' else 400)
+        # numbers next to the entries of a documented whitelist of issued numbers with a wrong check digit
+        wl = sorted(getattr(mod, 'whitelist', ()) or ())
+        if wl:
+            snap = _cedula_snapshot() if name == 'do.cedula' else set(wl)
+            picks = [x for x in wl if x not in snap] + rng.sample(wl, min(len(wl), 20 if tier == 'quick' else 300))
+            for wnum in picks[:60 if tier == 'quick' else 1000]:
+                for p in range(len(wnum)):
+                    for d in '0123456789':
+                        if d != wnum[p]:
+                            cand = wnum[:p] + d + wnum[p + 1:]
+                            if cand not in wl and C.outcome(mod.is_valid, cand) == ('ok', True):
+                                special.append(cand)
+        for v in base + C.synth_valid(name, 6 if tier == 'quick' else 400, rng, base=base) + special:
             o = C.outcome(mod.validate, v)
             if o[0] == 'ok' and isinstance(o[1], str) and o[1] and o[1] not in nums:
                 nums.append(o[1])
